@@ -155,7 +155,7 @@ def no_output_direct(result):
 
 def expect_login_direct(result):
     """`nop expect-login <rv>`: the next C_Login must answer exactly that code (0 for the PIN most recently set, 160 = CKR_PIN_INCORRECT for a replaced one)"""
-    out, want = [], None
+    out, want, wantlab = [], None, None
     ls = [l for l in result.transcript.splitlines() if l.strip()]
     i = 0
     pend = None
@@ -166,6 +166,11 @@ def expect_login_direct(result):
         i += 2
         if op[:2] == ["nop", "expect-login"] and len(op) > 2:
             want = int(op[2]); continue
+        if op[:2] == ["nop", "expect-label"] and len(op) > 2:
+            wantlab = op[2]; continue
+        if op[0] == "slots" and wantlab is not None:
+            if not any(w.startswith(wantlab) for w in res): out.append(("token-label-after-other-process", "a fresh process does not find a token labelled %s: %s" % (bytes.fromhex(wantlab).decode("latin1"), " ".join(res)[:300])))
+            wantlab = None
         if op[0] == "login" and want is not None:
             if res[1] != str(want): out.append(("pin-after-other-process.%s.want%s.got%s" % ("user" if op[2] == "1" else "so", want, res[1]),
                                                  "a fresh process: C_Login(%s, %s) answered %s, expected %s (the PIN most recently set by ANY process authenticates, a replaced one does not)" % ("user" if op[2] == "1" else "SO", bytes.fromhex(op[3]).decode("latin1"), res[1], want)))
